@@ -821,6 +821,38 @@ add('c09-benign-redouble-via-local', 'C09', 'benign', [(LOOK, """        address
         address = "'{}'!{}".format(quoted, address)""")])
 add('c09-benign-marker-renamed-both', 'C09', 'benign', [(EXCEL, """            k: '#EMPTY' if v == [[sh.EMPTY]] else v""", """            k: '#BLANK' if v == [[sh.EMPTY]] else v"""), (EXCEL, """            if isinstance(v, str) and v.upper() == '#EMPTY':""", """            if isinstance(v, str) and v.upper() == '#BLANK':""")])
 
+# ---------------------------------------------------------------- C03
+add('c03-args-zip-sorted', 'C03', 'break', [(CELL, """        for links, v in zip(self.inputs.values(), args):""", """        for links, v in zip(sorted(self.inputs.values()), args):""")], expect='C03.pair')
+add('c03-cell-registers-sorted-inputs', 'C03', 'break', [(CELL, """                inputs = self.inputs
+                nodes.update(inputs)""", """                inputs = sorted(self.inputs)
+                nodes.update(inputs)""")], expect='C03.pair')
+add('c03-cell-inputs-is-set', 'C03', 'break', [(CELL, """        self.inputs = inp = collections.OrderedDict()""", """        self.inputs = inp = collections.defaultdict(list)""")], expect='C03.pair')
+add('c03-assembler-call-reversed', 'C03', 'break', [(CELL, """        for c, ind in zip(cells, self.inputs.values()):""", """        for c, ind in zip(cells, reversed(self.inputs.values())):""")], expect='C03.pair')
+add('c03-inverse-outputs-sorted', 'C03', 'break', [(CELL, """                dsp.add_function(
+                    None, InvRangesAssembler(self), inputs, self.outputs
+                )""", """                dsp.add_function(
+                    None, InvRangesAssembler(self), inputs, sorted(self.outputs)
+                )""")], expect='C03.pair')
+add('c03-inverse-call-over-missing', 'C03', 'break', [(CELL, """        for d in self.assembler.outputs.values():
+            if isinstance(d, tuple):""", """        for d in set(self.assembler.outputs.values()):
+            if isinstance(d, tuple):""")], expect='C03.pair')
+add('c03-compile-inputs-unsorted', 'C03', 'break', [(BUILDER, """        for k in sorted(dsp.data_nodes):
+            if not dsp.dmap.pred[k]:""", """        for k in set(dsp.data_nodes):
+            if not dsp.dmap.pred[k]:""")], expect='C03')
+add('c03-assemble-first-of-set', 'C03', 'break', [(EXCEL, """            if len(indices) == 1:
+                get(cells, 'cell', rng['sheet_id'])[list(indices)[0]] = c.output""", """            if len(indices) <= 2:
+                get(cells, 'cell', rng['sheet_id'])[list(indices)[0]] = c.output""")], expect='C03.ord')
+add('c03-first-missing-wins', 'C03', 'break', [(CELL, """        for n, r in tuple(self.missing):
+            c = _index2col(n)""", """        for n, r in tuple(self.missing):
+            if len(ists) > self.compact:
+                self.first_missing = (n, r)
+                break
+            c = _index2col(n)""")], expect='C03.ord')
+add('c03-benign-iterate-set-no-exit', 'C03', 'benign', [(CELL, """        for n, r in tuple(self.missing):
+            c = _index2col(n)""", """        for n, r in tuple(set(self.missing)):
+            c = _index2col(n)""")])
+add('c03-benign-list-of-inputs', 'C03', 'benign', [(CELL, """        for links, v in zip(self.inputs.values(), args):""", """        for links, v in zip(list(self.inputs.values()), args):""")])
+
 if __name__ == '__main__':
     here = os.path.dirname(os.path.abspath(__file__))
     ids = [v['id'] for v in V]
